@@ -46,7 +46,7 @@ type concCase struct {
 }
 
 var concKinds = []string{"canon-own", "canon-shared", "canon-alloc", "iter", "dawg-build", "dawg-lookup", "dawg-search", "observe",
-	"invariants", "codecs", "cliques-chan", "comb", "sortints", "random", "generators", "tsp", "colouring", "dawg-gob", "search-saveload", "views", "canon-big", "canon-big"}
+	"invariants", "codecs", "cliques-chan", "comb", "sortints", "random", "generators", "tsp", "colouring", "dawg-gob", "search-saveload", "views", "canon-big", "canon-big", "derive-edit", "compute-then-edit"}
 
 func genConcCase(t *rapid.T) concCase {
 	words := genWordSet(t, []byte{'a', 'b', 'c'}, 12, 4)
@@ -294,6 +294,65 @@ func runConcTask(sh *concShared, tk cTask) string {
 			}
 			fmt.Fprint(&sb, graph.Graph6Encode(graph.ComplementDense(iv)), graph.CliqueNumber(cv))
 		}
+	case "derive-edit":
+		// deep copies derived from the SHARED graphs (Copy, InducedSubgraph on a prefix, on everything, on a shuffled list)
+		// are this goroutine's own values: editing them must not touch what the other goroutines are reading
+		n := sh.model.N
+		for _, base := range []graph.EditableGraph{sh.dense, sh.sparse} {
+			lists := [][]int{}
+			all := make([]int, n)
+			for i := range all {
+				all[i] = i
+			}
+			lists = append(lists, all, all[:n/2], all[:max(n-1, 0)])
+			for _, V := range lists {
+				for _, own := range []graph.EditableGraph{base.InducedSubgraph(V), base.Copy()} {
+					k := own.N()
+					if k >= 2 {
+						own.RemoveEdge(0, 1)
+						own.AddEdge(0, k-1)
+						own.RemoveVertex(k / 2)
+					}
+					own.AddVertex([]int{})
+					if own.N() >= 2 {
+						own.AddVertex([]int{0, own.N() - 1})
+						own.RemoveVertex(0)
+					}
+					fmt.Fprint(&sb, own.N(), own.M(), own.Degrees(), ";")
+				}
+			}
+		}
+	case "compute-then-edit":
+		// an own graph is handed to the library and edited as soon as the call returns: nothing the call started may
+		// still be looking at it (a K4 component next to a larger sparse part, so that searches can stop early)
+		pg, _ := plantedCase{N: 20 + tk.A%9, K: 3, Dens: 1 + tk.B%3, Seed: uint64(tk.A*131 + tk.B)}.build()
+		m := oracle.DisjointUnion(mComplete(4), pg)
+		for _, own := range []graph.EditableGraph{denseOf(m), sparseOf(m)} {
+			for r := 0; r < 3; r++ {
+				w := graph.CliqueNumber(own)
+				own.RemoveEdge(0, 1)
+				own.AddEdge(0, 1)
+				a := graph.IndependenceNumber(own)
+				own.AddVertex([]int{0})
+				own.RemoveVertex(own.N() - 1)
+				cc := graph.ConnectedComponents(own)
+				own.RemoveEdge(2, 3)
+				own.AddEdge(2, 3)
+				pl := graph.IsPlanar(own)
+				own.AddEdge(0, 4)
+				own.RemoveEdge(0, 4)
+				dg, _ := graph.Degeneracy(own)
+				own.RemoveEdge(1, 2)
+				own.AddEdge(1, 2)
+				cl, err := drainCliques(own)
+				if err != nil {
+					panic(err)
+				}
+				own.RemoveEdge(1, 3)
+				own.AddEdge(1, 3)
+				fmt.Fprint(&sb, w, a, len(cc), pl, dg, len(cl), ";")
+			}
+		}
 	case "observe":
 		_, gr := pick()
 		fmt.Fprint(&sb, gr.N(), gr.M(), gr.Degrees())
@@ -520,7 +579,7 @@ func checkConcCase(c concCase, rec *Rec) error {
 
 func init() {
 	s := RegisterRapid("C19_concurrent_workloads",
-		"rapid (run from the -race binary): a workload of 3..~25 tasks drawn from 21 kinds - all m shards of search.All(n<=6), CanonicalIsomorphFull on own graphs (incl. 24..44-vertex graphs with large cells) and on ONE shared read-only graph held as dense/sparse/three views, CanonicalIsomorphAllocated with own storage, eight itertools iterators, own dawg Builders, Lookup and Search (own searchers) on ONE shared Dawg (half of the time with 24 links at the root and at a second-level node), observers / clique / colouring / distance / block / counting / planarity / codec functions on the shared graph, AllMaximalCliques with own channels, comb and sortints functions on shared read-only slices, RandomGraph/RandomTree, the named generators, tsp.LIB to own buffers, GobEncode of the shared Dawg + GobDecode into an own one, an own pruned search that is saved and resumed, induced-subgraph and complement views created over the shared graphs; half of the tasks are duplicated so that two goroutines run identical code on the shared values. Each task's result is computed alone (before the concurrent rounds, or - in half of the cases - after the first one, so that lazily filled caches are still cold when the goroutines start), and all tasks run on 2..16 goroutines behind a start barrier with GOMAXPROCS in {1,2,4,16}, 1..3 rounds. Violation: any race-detector report (GORACE=halt_on_error), any panic, any result that differs from the sequential one, or shards that no longer partition the classes. Schedules are sampled, not enumerated. Non-trivial: >= 2 tasks on >= 2 goroutines.",
+		"rapid (run from the -race binary): a workload of 3..~25 tasks drawn from 23 kinds - all m shards of search.All(n<=6), CanonicalIsomorphFull on own graphs (incl. 24..44-vertex graphs with large cells) and on ONE shared read-only graph held as dense/sparse/three views, CanonicalIsomorphAllocated with own storage, eight itertools iterators, own dawg Builders, Lookup and Search (own searchers) on ONE shared Dawg (half of the time with 24 links at the root and at a second-level node), observers / clique / colouring / distance / block / counting / planarity / codec functions on the shared graph, AllMaximalCliques with own channels, comb and sortints functions on shared read-only slices, RandomGraph/RandomTree, the named generators, tsp.LIB to own buffers, GobEncode of the shared Dawg + GobDecode into an own one, an own pruned search that is saved and resumed, induced-subgraph and complement views created over the shared graphs, deep copies (Copy, InducedSubgraph on prefixes) derived from the shared graphs and then edited, own graphs edited immediately after each library call on them returns; half of the tasks are duplicated so that two goroutines run identical code on the shared values. Each task's result is computed alone (before the concurrent rounds, or - in half of the cases - after the first one, so that lazily filled caches are still cold when the goroutines start), and all tasks run on 2..16 goroutines behind a start barrier with GOMAXPROCS in {1,2,4,16}, 1..3 rounds. Violation: any race-detector report (GORACE=halt_on_error), any panic, any result that differs from the sequential one, or shards that no longer partition the classes. Schedules are sampled, not enumerated. Non-trivial: >= 2 tasks on >= 2 goroutines.",
 		Budget{Checks: 150, Shards: 3}, Budget{Checks: 1500, Shards: 16}, genConcCase, checkConcCase)
 	s.Race = true
 }
